@@ -1,5 +1,5 @@
 (* Driver entry points for C03 (the scan loop of runner.go over recorded finder / matcher tables). *)
-From Verif Require Import Base.Prelude Base.Wire Model.Scan Model.Finder.
+From Verif Require Import Base.Prelude Base.Wire Model.Scan Model.Finder Model.BM.
 
 (* tables are indexed by position 0..n; outside the table the components answer as a position that
    is never legitimately reached: finder gives up where it stands, matcher fails where it stands *)
@@ -195,6 +195,53 @@ Definition run_fd_helper (args : list Z) : list Z :=
   | _ => bad_case
   end.
 
+(* ---- 310 / 311: the Boyer-Moore machine (Model/BM.v) ----------------------------------------- *)
+(* 310: newBmPrefix.  args: pattern, caseInsensitive, rightToLeft, ToLower table (pairs; identity elsewhere)
+   -> [2] fault | [3] fuel | [0;0] nil | [0;1] ++ pattern (lower-cased) ++ positive ++ negativeASCII
+      ++ [negativeUnicode != nil] ++ non-nil rows in ascending order (count, then row number :: row) ++ [lowASCII; highASCII] *)
+Definition d03_bm_head : dec (list Z * bool * bool * list (Z * Z)) :=
+  dlet pat <- d_zlist ; dlet ci <- d_bool ; dlet rtl <- d_bool ; dlet low <- d_list (d_pair d_z d_z) ;
+  d_ret (pat, ci, rtl, low).
+
+Definition e03_bm_rows (f : Z -> option (list Z)) : list Z :=
+  let rows := flat_map (fun i => match f i with Some r => [(i, r)] | None => [] end) (fd_positions 256 0) in
+  e_list (fun ir => fst ir :: e_zlist (snd ir)) rows.
+
+Definition run_bm_tables (args : list Z) : list Z :=
+  match d03_bm_head args with
+  | Some ((pat, ci, rtl, low), []) =>
+      match bm_new (fun x => zassoc x low x) pat ci rtl with
+      | Ok None => [0; 0]
+      | Ok (Some t) =>
+          [0; 1] ++ e_zlist (bm_pattern t) ++ e_zlist (bm_positive t) ++ e_zlist (bm_negascii t)
+          ++ e_bool (bm_has_uni t) ++ e03_bm_rows (bm_uni t) ++ [bm_low t; bm_high t]
+      | Fuel => [3]
+      | _ => [2]
+      end
+  | _ => bad_case
+  end.
+
+(* 311: Scan and IsMatch at every index 0..n of a text, for each window (beglimit, endlimit).
+   args: as 310, then text, windows -> [9] when newBmPrefix gives no machine, else per window, per index:
+   Scan as [0; r] | [2; 0] (fault) | [3; 0], then IsMatch likewise (booleans 0/1) *)
+Definition run_bm_scan (args : list Z) : list Z :=
+  match (dlet h <- d03_bm_head ; dlet text <- d_zlist ; dlet ws <- d_list (d_pair d_z d_z) ; d_ret (h, text, ws)) args with
+  | Some (((pat, ci, rtl, low), text, ws), []) =>
+      let lower := fun x => zassoc x low x in
+      match bm_new lower pat ci rtl with
+      | Ok (Some t) =>
+          flat_map (fun w =>
+            flat_map (fun p =>
+              (match bm_scan lower t text (S (length text)) p (fst w) (snd w) with
+               | Ok r => [0; r] | Fuel => [3; 0] | _ => [2; 0] end)
+              ++ (match bm_is_match lower t text p (fst w) (snd w) with
+                  | Ok b => [0; if b then 1 else 0] | Fuel => [3; 0] | _ => [2; 0] end))
+              (fd_positions (S (length text)) 0)) ws
+      | _ => [9]
+      end
+  | _ => bad_case
+  end.
+
 Definition run03 (leg : Z) (args : list Z) : list Z :=
   if leg =? 301 then run_scan args
   else if leg =? 302 then run_scan_hyps args
@@ -203,4 +250,6 @@ Definition run03 (leg : Z) (args : list Z) : list Z :=
   else if leg =? 305 then run_fd_optimized args
   else if leg =? 306 then run_fd_first_runes args
   else if leg =? 307 then run_fd_helper args
+  else if leg =? 310 then run_bm_tables args
+  else if leg =? 311 then run_bm_scan args
   else bad_case.
